@@ -36,6 +36,17 @@ def gen(rng, tier):
                      tags=("class" + grammar.cls(dl),))
         s.expected = e
         out.append(s)
+    # section names that are prefixes of each other (and differ in case only), in every order, all defining the same keys
+    for _ in range(60 if tier == "quick" else 2000):
+        names = rng.sample([b"network", b"net", b"ne", b"n", b"Net", b"NETWORK", b"net work", b"network2"], rng.randrange(2, 6))
+        lines = [b"port=0"] if rng.random() < 0.5 else []
+        for i, nm in enumerate(names + ([names[0]] if rng.random() < 0.3 else [])):
+            lines.append(b"[" + nm + b"]")
+            for k in rng.sample([b"port", b"mode", b"mtu", b"name"], rng.randrange(1, 4)): lines.append(k + b"=" + nm + b"-%d" % i)
+        cmds = [gens.parse_cmd(0, b"/g/p.conf", b"\n".join(lines) + b"\n", b"=", b"#"), "dump 0", "getall 0"]
+        for nm in names:
+            for k in (b"port", b"mode", b"mtu", b"name"): cmds.append("get 0 string %s %s -" % (enc(rng.choice([nm, b"[" + nm + b"]"])), enc(k)))
+        out.append(Scenario(cmds, [True] * len(cmds), tags=("prefix-names",)))
     # big files: hundreds of sections (many of them re-opened further down), thousands of keys — compared with the model
     for nsec, nkeys in (((80, 600), (400, 2500)) if tier == "quick" else ((80, 600), (400, 2500), (2000, 20000))):
         lines = [b"top=0", b"top2 = x"]
